@@ -52,8 +52,7 @@ Section Book.
     forall o s, P s -> P (fst (parse_opened NM cb o s)).
   Proof.
     intros S cb P Hcb o s Hs. unfold parse_opened.
-    destruct o as [|data f|].
-    - pose proof (parse_stream_inv cb P Hcb [] NoFault s Hs) as H. destruct (parse_stream NM cb [] NoFault s). exact H.
+    destruct o as [data f|].
     - pose proof (parse_stream_inv cb P Hcb data f s Hs) as H. destruct (parse_stream NM cb data f s). exact H.
     - pose proof (parse_stream_inv cb P Hcb [] (FailAt 0) s Hs) as H. destruct (parse_stream NM cb [] (FailAt 0) s). exact H.
   Qed.
